@@ -91,6 +91,7 @@ func scenario(threads [][]string, pre []string, bounds []int) *vexp.Scenario {
 			subs := map[byte]*subCtx{
 				'1': {actor.VerifRefWithMailbox("/sub1", &recMailbox{name: "1", got: &got})},
 				'2': {actor.VerifRefWithMailbox("/sub2", &recMailbox{name: "2", got: &got})},
+				'3': {actor.VerifRefWithMailbox("/sub3", &recMailbox{name: "3", got: &got})},
 			}
 			pubCtx := &subCtx{actor.VerifRefWithMailbox("/pub", &recMailbox{name: "p", got: &got})}
 			clock := 0
@@ -279,6 +280,15 @@ func build(tier string) []*vexp.Scenario {
 		for _, t := range [][][]string{{{"S1A", "PA"}, {"X2"}}, {{"S1A"}, {"X2", "PA"}}, {{"S1A", "PA"}, {"X2", "PA"}}} {
 			out = append(out, scenario(t, pre, b2))
 		}
+	}
+	// overlapping publications of two types whose subscriber sets differ (and overlap), each with more than one subscriber:
+	// whatever a Publish collects its targets in must be its own until its fan-out is finished
+	for _, t := range [][][]string{{{"PA"}, {"PB"}}, {{"PA", "PA"}, {"PB"}}, {{"PA", "PB"}, {"PB", "PA"}}, {{"PA"}, {"PB"}, {"S3A"}}, {{"PA"}, {"PB"}, {"X1"}}} {
+		b := b2
+		if len(t) == 3 {
+			b = b3
+		}
+		out = append(out, scenario(t, []string{"S1A", "S2A", "S1B", "S3B"}, b))
 	}
 	three := [][][]string{
 		{{"S1A"}, {"S2A"}, {"PA"}}, {{"S1A"}, {"U1A"}, {"PA"}}, {{"S1A", "S1B"}, {"X1"}, {"PB"}}, {{"PA"}, {"PA"}, {"S1A"}},
